@@ -237,6 +237,17 @@ impl<'r> G<'r> {
             items.push(PItem::Semi);
             items.push(PItem::E(Expr::Err));
         }
+        if self.rng.chance(1, 5) {
+            // a string variable of the current scope: "every variable as the handler left it"
+            // is not about INTEGERs only
+            let v = if self.in_proc_now { "LS$" } else { "GS$" };
+            items.push(PItem::Semi);
+            items.push(PItem::E(Expr::Str("[".into())));
+            items.push(PItem::Semi);
+            items.push(PItem::E(Expr::SVar(v.into())));
+            items.push(PItem::Semi);
+            items.push(PItem::E(Expr::Str("]".into())));
+        }
         let dev = if self.f.io_lpt1 && self.rng.chance(1, 4) {
             Dev::Lpt1
         } else if self.files_open && self.rng.chance(1, 4) {
@@ -297,6 +308,22 @@ impl<'r> G<'r> {
         match self.rng.weighted(&w) {
             0 => self.trace(),
             1 => {
+                if self.rng.chance(1, 5) {
+                    let v = if self.in_proc_now { "LS$" } else { "GS$" };
+                    let lit = *self.rng.pick(&["a", "bc", "", "xyz", "q\u{e9}", "k9"]);
+                    let expr = if self.rng.chance(1, 3) {
+                        Expr::Add(
+                            Box::new(Expr::Str(lit.into())),
+                            Box::new(Expr::Str("+".into())),
+                        )
+                    } else {
+                        Expr::Str(lit.into())
+                    };
+                    return self.st(StmtKind::SAssign {
+                        var: v.into(),
+                        expr,
+                    });
+                }
                 let var = self.var();
                 let expr = self.expr();
                 self.st(StmtKind::Assign { var, expr })
